@@ -402,6 +402,68 @@ def run_laws(ctx: Ctx, n_cases: int):
     ctx.sample({"stream": "laws", "example": case}, cap=9)
 
 
+# ----------------------------------------------------------------------------- retraction validity ladder
+
+def retr_ladder_case(ctx: Ctx, case) -> bool:
+    """Retr / + / add_ by a tangent vector of a given rotation angle must return a unit quaternion up to round-off"""
+    P = U.pp()
+    name, dtype, theta = case["type"], case["dtype"], case["theta"]
+    D = U.dt(dtype)
+    eps = common.EPS[dtype]
+    n0 = len(ctx.failures)
+    X = U.lt(name, [case["X"]], D)
+    ax = case["axis"]
+    nrm = math.sqrt(sum(v * v for v in ax))
+    a = [0.0] * U.ADIM[name]
+    for i, v in zip(range(U.PHISL[name].start, U.PHISL[name].stop), ax):
+        a[i] = theta * v / nrm
+    A = P.LieTensor(torch.tensor([a], dtype=D), ltype=getattr(P, U.ALG[name] + "_type"))
+    try:
+        outs = {"Retr": X.Retr(A), "+": X + A.tensor(), "add_": X.clone().add_(A.tensor()), "Exp@": A.Exp() @ X}
+    except Exception as e:
+        ctx.fail(case, f"raises: retraction raised {type(e).__name__}: {str(e)[:120]}")
+        return False
+    for nm, Y in outs.items():
+        q = Y.tensor()[0].tolist()[U.QSL[name]]
+        n2 = sum(Fraction(v) ** 2 for v in q)
+        defect = abs(float(n2) - 1.0) / 2 / eps
+        if defect > GAMMA_EPS:
+            ctx.fail(case | {"spelling": nm}, f"valid: {nm} by a rotation of {theta:.6g} rad leaves the unit sphere by {defect:.1f} eps ({name}, {dtype})")
+    return len(ctx.failures) == n0
+
+
+def ident(name):
+    x = [0.0] * U.GDIM[name]
+    x[U.QSL[name].stop - 1] = 1.0
+    if U.SIDX[name] is not None:
+        x[U.SIDX[name]] = 1.0
+    return x
+
+
+def retr_ladder(quick=True):
+    th = [0.0, 1e-300, 1e-30, 1e-17, 1e-9, 1e-8, 2e-8, 1e-7, 1e-6, 1e-5, 1e-4, 3e-4, 1e-3, 3e-3, 0.01, 0.02, 0.025, 0.03, 0.035, 0.04, 0.045,
+          0.049, 0.0499, 0.05, 0.0501, 0.06, 0.08, 0.1, 0.2, 0.3, 0.5, 0.7, 1.0, 1.5, 2.0, 3.0, 3.14159, 3.2, 4.0, 6.0, 6.28, 7.0, 20.0]
+    if not quick:
+        th += [10 ** (-8 + 8 * k / 160) for k in range(161)]
+    return th
+
+
+def run_retr_ladder(ctx: Ctx):
+    k = 0
+    for name in U.GROUPS:
+        for dtype in ("float64", "float32"):
+            eps = common.EPS[dtype]
+            th = retr_ladder(ctx.quick) + [eps * f for f in (0.5, 1.0, 2.0, 1e3)] + [math.sqrt(eps), eps ** 0.25]
+            for theta in th:
+                k += 1
+                X = ident(name) if k % 3 == 0 else U.to_dtype_exact([U.gen_group(__import__("random").Random(k), name, eps, thi=2.0, shi=0.3)[0]], dtype)[1][0].tolist()
+                case = {"stream": "retrvalid", "type": name, "dtype": dtype, "theta": theta, "X": X,
+                        "axis": [(1.0, 0.0, 0.0), (0.3, -0.5, 0.8), (0.0, 0.0, -1.0)][k % 3]}
+                retr_ladder_case(ctx, case)
+                ctx.note_case(("retrvalid", name, dtype, theta), theta != 0.0)
+                ctx.count(f"retrvalid.{name}.{dtype}")
+
+
 # ----------------------------------------------------------------------------- history stream
 
 def run_history(ctx: Ctx, n_hist: int, length: int):
@@ -551,6 +613,18 @@ def check_steps(ctx, case, name, eps, states, seq):
         ratio = math.sqrt(float(d2 / n2)) / eps if n2 else float("inf")
         worst = max(worst, ratio)
         kind, arg = seq[k]
+        # the property's own clause on the real code: one operation may change the quaternion norm by round-off only
+        # (a per-step defect of 10^3 eps would hide inside the n*8*eps drift allowance of a long history)
+        n2p = sum(Fraction(v) ** 2 for v in states[k][U.QSL[name]])
+        n2n = sum(Fraction(v) ** 2 for v in got)
+        n2y = sum(Fraction(v) ** 2 for v in arg[U.QSL[name]]) if kind in ("mulL", "mulR") else Fraction(1)
+        if n2p > 0 and n2y > 0:
+            defect = abs(float(n2n / (n2p * n2y)) - 1.0) / 2 / eps
+            if defect > GAMMA_EPS:
+                ctx.fail(case | {"step": k, "kind": kind, "state": states[k], "arg": arg},
+                         f"valid: step {k} ({kind}) changed the quaternion norm by {defect:.1f} eps - not round-off ({name}, "
+                         f"{case.get('dtype')}); state and argument are in the replay")
+                break
         if U.SIDX[name] is not None:      # hypothesis of rounded_scale_pos: stored scale within gamma (relative) of the exact update
             se = [common.from_wire(t) for t in toks][U.SIDX[name]]
             sg = Fraction(states[k + 1][U.SIDX[name]])
@@ -656,6 +730,7 @@ def run_corners(ctx: Ctx):
 
 def run(ctx: Ctx):
     run_corners(ctx)
+    run_retr_ladder(ctx)
     run_ops(ctx, ctx.pick(260, 3000))
     run_laws(ctx, ctx.pick(300, 4000))
     if ctx.quick:
@@ -667,6 +742,16 @@ def run(ctx: Ctx):
 
 
 def search(ctx: Ctx):
+    """failing-input search on the real code after a broken proof / correspondence: the retraction-validity ladder on
+    a dense angle grid (thorough ladder), then every law on 3000 fresh triples"""
+    q = ctx.quick
+    ctx.quick = False
+    try:
+        run_retr_ladder(ctx)
+    finally:
+        ctx.quick = q
+    if ctx.failures:
+        return
     run_laws(ctx, 3000)
 
 
@@ -674,6 +759,11 @@ def replay(ctx: Ctx, case) -> bool:
     c = case["case"]
     if c.get("stream") == "laws":
         ok = law_case(ctx, c)
+        for f in ctx.failures:
+            print("  fails:", f["what"])
+        return ok
+    if c.get("stream") == "retrvalid":
+        ok = retr_ladder_case(ctx, c)
         for f in ctx.failures:
             print("  fails:", f["what"])
         return ok
